@@ -1,8 +1,8 @@
-(* The constants and weight tables of the model are those of the source tree (Params_gen.v is
+(* The constants and weight tables of the model are those of the source tree (C11/ParamsGen.v is
    regenerated from /repo on every run), and the tables satisfy the side condition the allocation
    theorems need: every weight is >= 1. *)
 From Coq Require Import List NArith ZArith Bool.
-From LTV Require Import Params_gen.
+From LTV.C11 Require Import ParamsGen.
 From LTV.C11 Require Import Model.
 Import ListNotations.
 Local Open Scope N_scope.
